@@ -398,3 +398,6 @@ def run(cx):
             # the property: Python itself rejects them before anything is commanded
     cx.extra["core_shapes"] = n_shapes
 
+    # the emitter half of the binding for the one node whose fields select a *position*: message(top, bottom)
+    from . import c17
+    c17.rule_message_rows(cx, "C08-MESSAGE", mod("transpile/emitter.py"))
